@@ -428,6 +428,7 @@ func misbehave(e *Env) {
 		doneFor map[int]bool
 	}
 	var hs []*hinfo
+	panicsHappened := 0
 	panicsPlanned := 0
 	blocked := 0
 	for _, v := range verbs {
@@ -452,6 +453,7 @@ func misbehave(e *Env) {
 				h.counts[q]++
 				if k, ok := h.panics[q]; ok {
 					e.S.Count("fault.handler-panic")
+					panicsHappened++
 					switch k {
 					case 0:
 						panic(fmt.Sprintf("boom %d/%d", h.id, q))
@@ -483,6 +485,10 @@ func misbehave(e *Env) {
 			}
 		}
 	}
+	earlyEnd := g.W(6, 2, 2) // 0 none, 1 Close from a task, 2 server EOF
+	endAfter := g.Intn(n + 1)
+	disconnected := false
+	s.c.HandleFunc(client.DISCONNECTED, func(*client.Conn, *client.Line) { disconnected = true })
 	if !s.connect() {
 		return
 	}
@@ -492,7 +498,28 @@ func misbehave(e *Env) {
 			errBefore++
 		}
 	}
-	for _, ev := range evs {
+	ended := false
+	closeReturned := false
+	for i, ev := range evs {
+		if earlyEnd != 0 && i == endAfter {
+			// the connection ends while handlers (some of them panicking) are
+			// running: recovery must still work and DISCONNECTED must be delivered
+			ended = true
+			e.S.Count("fault.connection-ended-while-handlers-panic")
+			how := earlyEnd
+			e.S.Spawn("ender", func() {
+				for k := e.S.Choose(60); k > 0; k-- {
+					simrt.Sleep(0)
+				}
+				if how == 1 {
+					s.c.Close()
+					closeReturned = true
+				} else {
+					s.l.CloseByServer()
+				}
+			})
+			break
+		}
 		s.l.SendLine(ev.wire)
 		if g.S.Choose(3) == 0 {
 			p := provoke[g.S.Choose(len(provoke))]
@@ -500,6 +527,36 @@ func misbehave(e *Env) {
 			nProvoke++
 			e.S.Count("fault.builtin-handler-provoked")
 		}
+	}
+	if ended {
+		if !simrt.BlockFor("misbehave", "DISCONNECTED", 5*time.Minute, func() bool { return disconnected && (earlyEnd != 1 || closeReturned) }) {
+			e.Violation("delivery-stopped", "the connection ended while handlers were panicking: DISCONNECTED delivered=%v, Close returned=%v after 5 simulated minutes (a later event is not delivered)\n%s", disconnected, closeReturned || earlyEnd != 1, e.S.TaskDump())
+			return
+		}
+		simrt.Settle(time.Minute)
+		e.Check()
+		if customRecover {
+			got := 0
+			for _, r := range recovered {
+				if r.cmd == "FOO" || r.cmd == "BAR" {
+					got++
+				}
+			}
+			if got != panicsHappened {
+				e.Violation("panic-not-recovered", "%d handler invocations panicked, the configured recovery function caught %d", panicsHappened, got)
+			}
+		} else {
+			errs := 0
+			for _, r := range e.Log.Recs {
+				if r.Level == "error" && strings.Contains(r.Text, "panic") {
+					errs++
+				}
+			}
+			if errs-errBefore < panicsHappened {
+				e.Violation("panic-not-logged", "%d handler invocations panicked but the default recovery logged only %d errors", panicsHappened, errs-errBefore)
+			}
+		}
+		return
 	}
 	s.l.SendLine("PING :fin")
 	fin := false
@@ -708,6 +765,14 @@ func handlerHistory(e *Env) {
 			register(nm, g.Bool(), false, "main")
 		}
 	}
+	// names without sentinels: their handler lists start empty and may become
+	// empty again, so first registrations and last removals race for real
+	free := []string{"qux", "zap"}[:g.Range(0, 2)]
+	names = append(names, free...)
+	isFree := map[string]bool{}
+	for _, f := range free {
+		isFree[f] = true
+	}
 	if !s.connect() {
 		return
 	}
@@ -719,7 +784,9 @@ func handlerHistory(e *Env) {
 		m := m
 		e.S.Spawn(fmt.Sprintf("mutator%d", m), func() {
 			for k := 0; k < 12 && !stop; k++ {
-				simrt.Sleep(time.Duration(g.S.Choose(4)) * time.Millisecond)
+				if g.S.Choose(3) != 0 {
+					simrt.Sleep(time.Duration(g.S.Choose(4)) * time.Millisecond)
+				}
 				nm := names[g.S.Choose(len(names))]
 				if g.S.Choose(2) == 0 {
 					register(nm, g.S.Choose(2) == 0, false, "task")
@@ -767,7 +834,7 @@ func handlerHistory(e *Env) {
 	// ---- oracle ----
 	var prevFgExit uint64
 	for _, ev := range evts {
-		if ev.fgEnter == 0 || ev.bgEnter == 0 {
+		if !isFree[ev.name] && (ev.fgEnter == 0 || ev.bgEnter == 0) {
 			e.Violation("sentinel-missed", "event %d (%s): the permanently registered sentinel handlers did not both run (fg seen=%v bg seen=%v)", ev.seq, ev.name, ev.fgEnter != 0, ev.bgEnter != 0)
 			return
 		}
@@ -793,8 +860,11 @@ func handlerHistory(e *Env) {
 			if h.bg {
 				lo, hi = ev.sent, ev.bgEnter
 			}
-			must := h.regEnd < lo && (h.remStart == 0 || h.remStart > hi)
-			mustNot := (h.remEnd != 0 && h.remEnd < lo) || h.regStart > hi
+			// hi == 0: no handler of that set ran for this event (possible only
+			// for names without a sentinel): when the snapshot was taken is then
+			// unknown, so only a handler that was never removed must have run
+			must := h.regEnd < lo && (h.remStart == 0 || (hi != 0 && h.remStart > hi))
+			mustNot := (h.remEnd != 0 && h.remEnd < lo) || (hi != 0 && h.regStart > hi)
 			if must && cnt != 1 {
 				e.Violation("not-run", "handler %d (%s, %s) was registered (call returned at event %d) before event %d could be dispatched (not before %d) and not removed until after its dispatch had started (%d), but ran %d times",
 					h.id, h.name, setName(h.bg), h.regEnd, ev.seq, lo, hi, cnt)
